@@ -6,9 +6,10 @@
 import GHEVerif.Lemmas.Search
 import GHEVerif.Lemmas.SearchNested
 import GHEVerif.Props.C01
+import GHEVerif.Lemmas.Pipeline
 
 namespace GHEVerif.C05
-open GHEVerif GHEVerif.Search
+open GHEVerif GHEVerif.Search GHEVerif.Report GHEVerif.Pipeline
 
 /-- Drilling bound, arbitrary sign pattern.  If no two candidates evaluated at maximum height have
     exactly the same excess, the candidate returned by the bisection path has the smallest
@@ -181,6 +182,45 @@ theorem height_is_root (x : Rat) (f : Rat → Rat) (lo hi brent tol c : Rat)
     solveRoot x f lo hi brent = .ok (.bracketed, brent) ∧ ratAbs (f brent) ≤ c * tol :=
   let ⟨h1, h2, _, _⟩ := C01.solveRoot_bracketed x f lo hi brent tol c hsig hb hl
   ⟨h1, h2⟩
+
+/-- "Not oversized" at the level of `GHEManager.find_design`, for every design method: for a returned
+    design whose field meets the limits at maximum height, the final height is either the MINIMUM
+    height (when the field already meets the limits there: nothing shorter is allowed) or a root of the
+    excess within `c·tol` (the field fails at minimum height, so Brent's bracket applies) — it is
+    never left above a root. -/
+theorem find_design_height_not_oversized {α β : Type} (search : SearchRes α β) (E : α → Rat → Rat) (minH maxH : Rat)
+    (f : α → Rat → Rat) (its : α → List Rat) (brent : α → Rat) (d : DesignG α β) (tol c : Rat)
+    (hres : findDesignG search E minH maxH f its brent = .design d)
+    (hfeas : f d.field maxH < 0)
+    (hnz : f d.field minH ≠ 0)
+    (hb : 0 < f d.field minH → C01.BrentSpec (f d.field) minH maxH tol (brent d.field))
+    (hl : C01.Lipschitz (f d.field) c minH maxH) :
+    (f d.field minH < 0 ∧ d.st.H = minH) ∨ (0 < f d.field minH ∧ ratAbs (f d.field d.st.H) ≤ c * tol) := by
+  rw [findDesignG_eq_spec] at hres
+  unfold findDesignSpec at hres
+  cases search with
+  | valueError => simp at hres
+  | pyError e => simp at hres
+  | selected k h p =>
+    simp only at hres
+    cases hs : size (f k) minH maxH (its k) (brent k) { H := h, simAt := none, returned := 0 } with
+    | error e => simp [hs] at hres
+    | ok st =>
+      simp only [hs] at hres
+      injection hres with hres
+      subst hres
+      simp only at hfeas hnz hb hl ⊢
+      obtain ⟨_, kind, hk⟩ := size_simAt (f k) minH maxH (its k) (brent k) _ _ hs
+      rcases lt_or_gt_of_ne hnz with hneg | hpos
+      · left
+        have := C01.solveRoot_clamped_low ((maxH + minH) / 2) (f k) minH maxH (brent k) hneg hfeas
+        rw [hk] at this; injection this with this; injection this with _ e
+        exact ⟨hneg, e⟩
+      · right
+        obtain ⟨h2, h3, _, _⟩ := C01.solveRoot_bracketed ((maxH + minH) / 2) (f k) minH maxH (brent k) tol c
+          (Or.inr ⟨hfeas, hpos⟩) (hb hpos) hl
+        rw [hk] at h2; injection h2 with h2; injection h2 with _ e
+        rw [e]; exact ⟨hpos, h3⟩
 
 /-- Non-vacuity: 9 candidates, threshold at 5: the hypotheses of `bisect1D_first_feasible` are
     satisfiable and the search indeed returns candidate 5 after evaluating candidate 4. -/
